@@ -1,5 +1,6 @@
 /* TLS endpoints as simulator tasks: real tls_init / tls_do_handshake /
  * tls_send|tls13_send / tls_recv|tls13_recv / tls_shutdown over simulated pipes. */
+#define _GNU_SOURCE
 #include "gmsim.h"
 #include <stdarg.h>
 
@@ -69,6 +70,92 @@ static uint8_t *dupmem(const uint8_t *p, size_t n)
 	return q;
 }
 
+/* ---- context setup through the public setters, from PEM files, as an application does it ----
+ * (the files live in memfds; the key PEM is a PKCS#8 EncryptedPrivateKeyInfo with a PBKDF2 count of 1 so that
+ * opening it costs microseconds; whatever state the setters derive ends up in the context, unlike with a
+ * context whose fields the harness fills in by hand) */
+#include <sys/mman.h>
+#ifdef GMSIM_MSAN
+#include <sanitizer/msan_interface.h>
+#endif
+#include <gmssl/pkcs8.h>
+#include <gmssl/pem.h>
+static int memfile_of(const void *data, size_t len, char path[64])
+{
+	int fd = memfd_create("gmsim_pem", 0);
+	if (fd < 0) return -1;
+	if (len && write(fd, data, len) != (ssize_t)len) { close(fd); return -1; }
+	snprintf(path, 64, "/proc/self/fd/%d", fd);
+	return fd;
+}
+static int certs_file(const uint8_t *der, size_t derlen, char path[64])
+{
+	char *mem = NULL; size_t len = 0;
+	FILE *f = open_memstream(&mem, &len);
+	if (!f) return -1;
+	/* one PEM block per outer TLV, without asking the X.509 parser (the chain may be defective on purpose) */
+	int ret = 1;
+	while (derlen && ret == 1) {
+		size_t n = derlen;
+		if (derlen >= 4 && der[0] == 0x30 && der[1] == 0x82 && 4 + (((size_t)der[2] << 8) | der[3]) <= derlen) n = 4 + (((size_t)der[2] << 8) | der[3]);
+		else if (derlen >= 3 && der[0] == 0x30 && der[1] == 0x81 && 3 + (size_t)der[2] <= derlen) n = 3 + (size_t)der[2];
+		ret = pem_write(f, "CERTIFICATE", der, n);
+		der += n; derlen -= n;
+	}
+	fclose(f);
+	int fd = ret == 1 ? memfile_of(mem, len, path) : -1;
+	free(mem);
+	return fd;
+}
+static const char *g_keypass = "sim-key-pass";
+static int key_file(const SM2_KEY *key, Rng *r, char path[64])
+{
+	uint8_t info[256], *p = info, enced[sizeof(info) + 32], der[512], *q = der;
+	uint8_t salt[16], iv[16], k16[16];
+	size_t infolen = 0, encedlen = 0, derlen = 0, len = 0;
+	SM4_KEY sk;
+	char *mem = NULL;
+	rng_bytes(r, salt, 16); rng_bytes(r, iv, 16);
+	if (sm2_private_key_info_to_der(key, &p, &infolen) != 1
+		|| sm3_pbkdf2(g_keypass, strlen(g_keypass), salt, 16, 1, 16, k16) != 1) return -1;
+	sm4_set_encrypt_key(&sk, k16);
+	if (sm4_cbc_padding_encrypt(&sk, iv, info, infolen, enced, &encedlen) != 1
+		|| pkcs8_enced_private_key_info_to_der(salt, 16, 1, 16, OID_hmac_sm3, OID_sm4_cbc, iv, 16, enced, encedlen, &q, &derlen) != 1) return -1;
+	FILE *f = open_memstream(&mem, &len);
+	if (!f) return -1;
+	int ret = pem_write(f, "ENCRYPTED PRIVATE KEY", der, derlen);
+	fclose(f);
+	int fd = ret == 1 ? memfile_of(mem, len, path) : -1;
+	free(mem);
+	return fd;
+}
+
+/* 1 ok, -1 the library refused */
+static int ctx_from_files(Endpoint *ep, const uint8_t *chain, size_t chainlen, const SM2_KEY *sign, const SM2_KEY *kenc,
+	const uint8_t *ca, size_t calen)
+{
+	char pc[64], ps[64], pk[64], pa[64];
+	int fc = -1, fs = -1, fk = -1, fa = -1, ret = 1;
+	if (chain && chainlen) {
+		fc = certs_file(chain, chainlen, pc); fs = key_file(sign, &ep->rbuf, ps);
+		if (kenc) fk = key_file(kenc, &ep->rbuf, pk);
+		if (fc < 0 || fs < 0 || (kenc && fk < 0)) die("pem files");
+		if (kenc) ret = tls_ctx_set_tlcp_server_certificate_and_keys(&ep->ctx, pc, ps, g_keypass, pk, g_keypass);
+		else ret = tls_ctx_set_certificate_and_key(&ep->ctx, pc, ps, g_keypass);
+	}
+	if (ret == 1 && ca && calen) {
+		fa = certs_file(ca, calen, pa);
+		if (fa < 0) die("pem files");
+		ret = tls_ctx_set_ca_certificates(&ep->ctx, pa, TLS_DEFAULT_VERIFY_DEPTH);
+	}
+	if (fc >= 0) close(fc);
+	if (fs >= 0) close(fs);
+	if (fk >= 0) close(fk);
+	if (fa >= 0) close(fa);
+	return ret == 1 ? 1 : -1;
+}
+
+static int ep_setup_inner(Endpoint *ep, int side, Conn *c, const Plan *p, const CredSet *cs, int proto);
 int ep_setup(Endpoint *ep, int side, Conn *c, const Plan *p, const CredSet *cs, int node)
 {
 	memset(ep, 0, sizeof(*ep));
@@ -76,6 +163,14 @@ int ep_setup(Endpoint *ep, int side, Conn *c, const Plan *p, const CredSet *cs, 
 	rng_seed(&ep->rbuf, (uint64_t)p->plan_seed, 0xbf00 + (uint64_t)side + (uint64_t)c->id * 2);
 
 	int proto = proto_const((int)p->proto);
+	int ret = ep_setup_inner(ep, side, c, p, cs, proto);
+	g_setup_node = -1;
+	return ret;
+}
+
+static int ep_setup_inner(Endpoint *ep, int side, Conn *c, const Plan *p, const CredSet *cs, int proto)
+{
+	g_setup_node = ep->node;
 	if (tls_ctx_init(&ep->ctx, proto, side == 0 ? TLS_client_mode : TLS_server_mode) != 1) return -1;
 	int cs_tlcp[] = { TLS_cipher_ecc_sm4_cbc_sm3 };
 	int cs_12[] = { TLS_cipher_ecdhe_sm4_cbc_sm3 };
@@ -83,23 +178,21 @@ int ep_setup(Endpoint *ep, int side, Conn *c, const Plan *p, const CredSet *cs, 
 	const int *suite = p->proto == P_TLCP ? cs_tlcp : p->proto == P_TLS12 ? cs_12 : cs_13;
 	if (tls_ctx_set_cipher_suites(&ep->ctx, suite, 1) != 1) return -1;
 
-	if (side == 0) {
-		if (!((p->cred_mode & 2) && p->proto == P_TLCP)) set_trust(&ep->ctx, p, cs);
-		ep->ctx.verify_depth = TLS_DEFAULT_VERIFY_DEPTH;
-		if (p->mutual || (p->cred_mode & 4)) {
-			ep->ctx.certs = dupmem(cs->cli_chain, cs->cli_chain_len);
-			ep->ctx.certslen = cs->cli_chain_len;
-			ep->ctx.signkey = cs->cli_sign.key;
+	{
+		static uint8_t trust[MAX_CHAIN + 8 * 800];
+		size_t trustlen = 0;
+		int want_trust = side == 0 ? !((p->cred_mode & 2) && p->proto == P_TLCP) : p->mutual != 0;
+		if (want_trust) {
+			trustlen = cs->trust_len;
+			memcpy(trust, cs->trust, trustlen);
+			if (p->extra_roots > 0) trustlen += creds_extra_roots((int)p->extra_roots, trust + trustlen, sizeof(trust) - trustlen);
 		}
-	} else {
-		ep->ctx.certs = dupmem(cs->srv_chain, cs->srv_chain_len);
-		ep->ctx.certslen = cs->srv_chain_len;
-		ep->ctx.signkey = cs->srv_sign.key;
-		if (cs->tlcp) ep->ctx.kenckey = cs->srv_enc.key;
-		if (p->mutual) {
-			set_trust(&ep->ctx, p, cs);
-			ep->ctx.verify_depth = TLS_DEFAULT_VERIFY_DEPTH;
-		}
+		int have_cert = side == 1 || p->mutual || (p->cred_mode & 4);
+		if (ctx_from_files(ep, have_cert ? (side == 0 ? cs->cli_chain : cs->srv_chain) : NULL,
+				have_cert ? (side == 0 ? cs->cli_chain_len : cs->srv_chain_len) : 0,
+				side == 0 ? &cs->cli_sign.key : &cs->srv_sign.key,
+				side == 1 && cs->tlcp ? &cs->srv_enc.key : NULL,
+				want_trust ? trust : NULL, trustlen) != 1) return -1;
 	}
 	ep->conn = calloc(1, sizeof(TLS_CONNECT));
 	if (!ep->conn) die("oom");
@@ -114,6 +207,12 @@ int ep_setup(Endpoint *ep, int side, Conn *c, const Plan *p, const CredSet *cs, 
 	}
 	if (tls_init(ep->conn, &ep->ctx) != 1) return -1;
 	if (tls_set_socket(ep->conn, c->fd[side]) != 1) return -1;
+#ifdef GMSIM_MSAN
+	/* the three staging buffers hold nothing yet: whoever reads them before writing them reads garbage */
+	__msan_poison(ep->conn->enced_record, sizeof(ep->conn->enced_record));
+	__msan_poison(ep->conn->record, sizeof(ep->conn->record));
+	__msan_poison(ep->conn->databuf, sizeof(ep->conn->databuf));
+#endif
 	net_guard_array(ep->conn->enced_record, sizeof(ep->conn->enced_record), "TLS_CONNECT.enced_record");
 	net_guard_array(ep->conn->record, sizeof(ep->conn->record), "TLS_CONNECT.record");
 	net_guard_array(ep->conn->databuf, sizeof(ep->conn->databuf), "TLS_CONNECT.databuf");
@@ -123,7 +222,23 @@ int ep_setup(Endpoint *ep, int side, Conn *c, const Plan *p, const CredSet *cs, 
 void ep_free(Endpoint *ep)
 {
 	if (ep->conn) { free(ep->conn); ep->conn = NULL; }
-	tls_ctx_cleanup(&ep->ctx);
+	if (!ep->ctx_of) tls_ctx_cleanup(&ep->ctx);
+	ep->ctx_of = NULL;
+}
+
+/* a further connection served from the context of an endpoint that is already set up */
+int ep_setup_same_ctx(Endpoint *ep, Endpoint *first, Conn *c)
+{
+	memset(ep, 0, sizeof(*ep));
+	ep->side = first->side; ep->c = c; ep->plan = first->plan; ep->node = first->node;
+	ep->ctx_of = first;
+	rng_seed(&ep->rbuf, (uint64_t)first->plan->plan_seed, 0xbf80 + (uint64_t)first->side + (uint64_t)c->id * 2);
+	ep->conn = calloc(1, sizeof(TLS_CONNECT));
+	if (!ep->conn) die("oom");
+	g_setup_node = ep->node;
+	int ok = tls_init(ep->conn, &first->ctx) == 1 && tls_set_socket(ep->conn, c->fd[ep->side]) == 1;
+	g_setup_node = -1;
+	return ok ? 1 : -1;
 }
 
 int ep_send(Endpoint *ep, const uint8_t *buf, size_t len, size_t *sent)
@@ -171,6 +286,12 @@ static int do_write(Endpoint *ep, int dir, uint64_t n, uint64_t wchunk)
 				ep->recmap[ep->nrecmap].start = ep->wrote[dir];
 				ep->recmap[ep->nrecmap].len = (uint32_t)sent;
 				ep->nrecmap++;
+			}
+			if (ret != 1 && ep->plan->efail_at >= 0 && ep->plan->efail_node == ep->node && !ep->plan->efail_rest
+			    && (ep->plan->cred_mode & 32) && g_sim.nodes[ep->node].efail_fired && ep->send_retries < 2) {
+				/* the one failing entropy draw hit this write: the application simply writes again */
+				ep->send_retries++;
+				continue;
 			}
 			if (ret != 1) { io_fail(ep, "send ret=%d at byte %llu", ret, (unsigned long long)ep->wrote[dir]); return -1; }
 			if (sent == 0 || sent > chunk - off) {
@@ -294,6 +415,7 @@ void ep_task(void *arg)
 		return;
 	}
 	keysnap_take(&ep->keys, ep->conn);
+	ep->draws_at_done = g_sim.nodes[ep->node].draws;
 	sim_yield(EV_APP, 2000, ep->side);
 
 	int broken = 0;
@@ -333,6 +455,7 @@ void ep_task(void *arg)
 		ep->finished = 1;
 		return;
 	}
+	ep->draws_at_data_end = g_sim.nodes[ep->node].draws;
 	/* orderly close */
 	if (p->closer == ep->side) {
 		if (p->proto != P_TLS13) (void)tls_shutdown(ep->conn);
